@@ -944,8 +944,9 @@ def external(I, e, name, spec):
     """a call to a function outside the verified code (file system, locks, ...): recorded in the
     ghost trace, result havoced per its declared type, may raise the declared exceptions"""
     from .interp import Raised
-    args = [I.eval(a) for a in e.args]
-    kwargs = {kw.arg: I.eval(kw.value) for kw in e.keywords if kw.arg is not None}
+    # `*rest` / `**rest` passed on to an external: recorded as the value being spread
+    args = [I.eval(a.value) if isinstance(a, ast.Starred) else I.eval(a) for a in e.args]
+    kwargs = {(kw.arg or '**'): I.eval(kw.value) for kw in e.keywords}
     short = spec.get('as', name.split('.')[-1])
     if spec.get('exc_info'):
         # sys.exc_info(): (class, instance, traceback) of the exception being handled
